@@ -281,7 +281,7 @@ Proof.
   induction its as [|(a, it) r IH]; intros pl d0 H; cbn [pass2] in H.
   - inversion H; subst. reflexivity.
   - destruct (pass2_item E a it) as [b|] eqn:E1; [|discriminate]. destruct (pass2 E r) as [rest|] eqn:E2; [|discriminate].
-    inversion H; subst pl. cbn [combine map fold_left fst snd]. rewrite (IH rest _ eq_refl). unfold gstep at 2. cbn [fst snd]. rewrite E1. reflexivity.
+    inversion H; subst pl. cbn [combine map fold_left fst snd]. rewrite (IH rest _ eq_refl). f_equal. unfold gstep. cbn [fst snd]. rewrite E1. reflexivity.
 Qed.
 
 Lemma gdict_fold E items : fold_left (gstep E) (rev items) [] = gdict E items.
@@ -310,6 +310,14 @@ Qed.
 Lemma clean_back a b : ext a b -> errors b = [] -> errors a = [].
 Proof. intros (l & H) Z. rewrite H in Z. destruct l; [exact Z|discriminate]. Qed.
 
+Lemma local_loop_cons dbg k t tl st r : local_loop dbg (S k) (t :: tl) st r =
+  CtxModel.bind (local_round dbg (t :: tl) st r) (fun r' st1 =>
+    match local_tasks st1 with
+    | None => Panic P_local_tasks_unwrap
+    | Some newt => let st2 := set_local_tasks st1 (Some []) in if res_is_fatal r' then Ret r' st2 else local_loop dbg k newt st2 r'
+    end).
+Proof. reflexivity. Qed.
+
 (* the class of programs: every statement (in the table pass 1 has reached before it) is in the class of LayoutStep.stmt_ok *)
 Definition C05_class (fs : str -> option (list N)) (E : env) (els : list element) : Prop := class_from fs E (mkP1 None [] []) els.
 
@@ -333,14 +341,16 @@ Proof.
   pose proof (clean_back _ _ (finalize_ext _ _ _ _ FI) Z3) as Z2.
   assert (Z1 : errors st1 = []) by (rewrite <- (close_segment_same _ _ _ _ CL); exact Z2).
   (* the file *)
-  change include_fuel with (S 63) in AS. cbn [assemble] in AS. unfold assemble_body in AS.
+  change (assemble false fs include_fuel init_state text path) with (assemble_body false fs (assemble false fs 63) init_state text path) in AS.
+  set (inc := assemble false fs 63) in *. unfold assemble_body in AS.
   set (st0 := mkState [] Inactive [] (Some []) [] (Some []) [] [path] path).
   set (fr := mkFrame 1 unknown_name None None).
   change (enter_file init_state path) with (st0, fr) in AS. unfold CtxModel.bind in AS.
-  assert (IO : inc_ok (assemble false fs 63)) by (intros ? ? ? ? ?; apply assemble_reported).
-  destruct (do_assemble false fs (assemble false fs 63) st0 text) as [r sta| |] eqn:DA; try discriminate.
+  assert (IO : inc_ok inc) by (intros ? ? ? ? ?; apply assemble_reported).
+  destruct (do_assemble false fs inc st0 text) as [r sta| |] eqn:DA; try discriminate.
   match type of AS with match ?X with _ => _ end = _ => destruct X as [r' stb| |] eqn:LL; try discriminate end.
-  destruct (leave_file stb fr) as [[] stc| |] eqn:LF; try discriminate. inversion AS; subst r0 st1. clear AS.
+  destruct (leave_file stb fr) as [[] stc| |] eqn:LF; try discriminate.
+  assert (st1 = stc) by congruence. subst st1. clear AS.
   assert (Zb : errors stb = []) by (rewrite <- (leave_file_same _ _ _ _ LF); exact Z1).
   assert (EXab : ext sta stb).
   { destruct (res_is_fatal r); [inversion LL; apply ext_refl|]. destruct (local_tasks sta); [|discriminate].
@@ -349,22 +359,24 @@ Proof.
   pose proof (do_assemble_spec _ _ _ _ _ _ _ IO DA) as (_ & PA).
   destruct r as [lv|]; [exfalso; eapply pushed_nonempty; [apply PA; discriminate|exact Za]|].
   unfold do_assemble in DA. rewrite HPa in DA. unfold CtxModel.bind in DA.
-  destruct (run_items false fs (assemble false fs 63) (map Text.ParseModel.IOk els) st0) as [r1 sta1| |] eqn:RI; try discriminate.
+  destruct (run_items false fs inc (map Text.ParseModel.IOk els) st0) as [r1 sta1| |] eqn:RI; try discriminate.
   destruct r1; inversion DA; subst sta1. clear DA.
   assert (S0 : Sim E st0 (p_cur (mkP1 None [] [])) (p_env (mkP1 None [] [])) (gdict E (p_items (mkP1 None [] [])))).
-  { exists []. split; [reflexivity|]. constructor; cbn; auto.
-    - exists [], path, []. repeat split; auto. intros n. reflexivity.
-    - intros n v Hn. discriminate.
-    - intros x. tauto. }
+  { exists []. split; [reflexivity|]. constructor; cbn [p_cur p_env p_items gdict st0 output active errors global_tasks locals path_stack]; auto.
+    - exact I.
+    - exists [], path, []. repeat split; auto; intros n; reflexivity.
+    - intros n v Hn. discriminate Hn.
+    - exact I.
+    - intros x. unfold view. cbn. tauto. }
   assert (H2 : forall a it, In (a, it) (p_items sF) -> pass2_item E a it <> None).
   { intros a it Hi. apply (pass2_all E _ _ P2). apply in_rev in Hi. exact Hi. }
   destruct (sim_run false fs _ E IO els st0 _ sta sF S0 HC RI Za P1 (env_le_refl E) H2) as (ts & ELT & HT).
   (* the tasks *)
   cbn [res_is_fatal] in LL. rewrite ELT in LL.
   assert (HB : SimT E stb (p_cur sF) E (gdict E (p_items sF)) [] /\ r' = None).
-  { change task_rounds with (S 3) in LL. cbn [local_loop] in LL. destruct ts as [|t0 tl].
-    - inversion LL; subst. split; [apply simT_set_local; exact HT|reflexivity].
-    - unfold CtxModel.bind in LL.
+  { change task_rounds with (S 3) in LL. destruct ts as [|t0 tl].
+    - cbn [local_loop] in LL. inversion LL; subst. split; [apply simT_set_local; exact HT|reflexivity].
+    - rewrite local_loop_cons in LL. unfold CtxModel.bind in LL.
       destruct (local_round false (t0 :: tl) (set_local_tasks sta (Some [])) None) as [r1 stR| |] eqn:LR; try discriminate.
       destruct (local_tasks stR) as [newt|] eqn:ER; [|discriminate].
       assert (EXR : ext stR stb).
@@ -372,7 +384,7 @@ Proof.
         apply local_loop_spec in LL. destruct LL as (LL & _). eapply ext_trans; [|exact LL]. exists []. reflexivity. }
       destruct (local_round_sim false E (t0 :: tl) _ _ _ _ _ (simT_set_local _ _ _ _ _ _ (Some []) HT) eq_refl LR (clean_back _ _ EXR Zb))
         as (-> & HR & ER').
-      rewrite ER in ER'. inversion ER'; subst newt. cbn [res_is_fatal local_loop] in LL. inversion LL; subst.
+      rewrite ER in ER'. inversion ER'; subst newt. cbv zeta in LL. cbn [res_is_fatal local_loop] in LL. inversion LL; subst.
       split; [apply simT_set_local; exact HR|reflexivity]. }
   destruct HB as (HB & ->). pose proof HB as [R T V C Er Gt A D L P W].
   (* leave, close, finalize *)
@@ -385,10 +397,80 @@ Proof.
   unfold finalize in FI. rewrite G2 in FI. cbn [global_tasks stc] in FI. rewrite Gt in FI.
   change task_rounds with (S 3) in FI. cbn [final_loop CtxModel.bind] in FI. inversion FI; subst st3.
   cbn [output set_global_tasks] in Hreg. subst regions.
-  unfold map_iter. rewrite <- (iter_is_runs _ R2). unfold map_iter, image_of. f_equal.
+  change (output (set_global_tasks st2 [])) with (output st2). rewrite <- (iter_is_runs _ R2). unfold image_of. f_equal.
   rewrite pass2_fold with (E := E) by exact P2. rewrite gdict_fold.
   apply (asc_ext _ _ 0 SPACE); [|exact A|].
   - apply asc_abs; [exact R2|]. intros s Hs. destruct (Rep_In_ok _ _ R2 Hs) as (S1 & S2 & S3). unfold SPACE, MapModel.U32 in *. lia.
   - intros x. transitivity (view st2 x); [unfold view; rewrite A2; reflexivity|].
     rewrite V2. transitivity (view stb x); [reflexivity|]. apply W. intros t [].
+Qed.
+
+(* ------------------------------------------------------------------ labels *)
+(* the table of the context at the end of the statement loop is the reference's final table *)
+Theorem labels_general fs inc path els placed env st' : inc_ok inc ->
+  layout_spec fs (map e_val els) = Some (placed, env) -> C05_class fs env els ->
+  run_items false fs inc (map Text.ParseModel.IOk els) (fst (enter_file init_state path)) = Ret None st' -> errors st' = [] ->
+  forall n, get_constant st' n RLocal = Some (match env_get env n with Some v => Found v | None => NotFound end).
+Proof.
+  intros IO HL HC RI Za n.
+  unfold layout_spec in HL. destruct (pass1 fs (mkP1 None [] []) (map e_val els)) as [sF|] eqn:P1; [|discriminate].
+  destruct (pass2 (p_env sF) (rev (p_items sF))) as [pl|] eqn:P2; [|discriminate]. inversion HL; subst placed env. clear HL.
+  set (E := p_env sF) in *.
+  set (st0 := mkState [] Inactive [] (Some []) [] (Some []) [] [path] path).
+  change (fst (enter_file init_state path)) with st0 in RI.
+  assert (S0 : Sim E st0 (p_cur (mkP1 None [] [])) (p_env (mkP1 None [] [])) (gdict E (p_items (mkP1 None [] [])))).
+  { exists []. split; [reflexivity|]. constructor; cbn [p_cur p_env p_items gdict st0 output active errors global_tasks locals path_stack]; auto.
+    - exact I.
+    - exists [], path, []. repeat split; auto; intros m; reflexivity.
+    - intros m v Hn. discriminate Hn.
+    - exact I.
+    - intros x. unfold view. cbn. tauto. }
+  assert (H2 : forall a it, In (a, it) (p_items sF) -> pass2_item E a it <> None).
+  { intros a it Hi. apply (pass2_all E _ _ P2). apply in_rev in Hi. exact Hi. }
+  destruct (sim_run false fs _ E IO els st0 _ st' sF S0 HC RI Za P1 (env_le_refl E) H2) as (ts & ELT & HT).
+  destruct HT as [_ (tbl & p & ps & EL & EP & TE) _ _ _ _ _ _ _ _ _].
+  unfold get_constant. cbn [realm_table]. rewrite EL. unfold lookup_of. rewrite (TE n). unfold E. destruct (env_get (p_env sF) n); reflexivity.
+Qed.
+
+(* in the reference a label is the address of the item placed next *)
+Lemma place_items s sz it s' : place s sz it = Some s' -> exists c, p_cur s = Some c /\ p_items s' = (c, it) :: p_items s.
+Proof.
+  unfold place. destruct (p_cur s) as [c|]; [|discriminate]. destruct (c + sz <=? 4294967296); [|discriminate].
+  intros H; inversion H; subst. exists c. auto.
+Qed.
+Lemma define_items s n v s' : define s n v = Some s' -> p_items s' = p_items s.
+Proof.
+  unfold define. destruct (AsmStmtModel.is_register n); [discriminate|]. destruct (env_get (p_env s) n); [discriminate|].
+  intros H; inversion H; reflexivity.
+Qed.
+
+Lemma label_next_item fs s n s1 e s2 a it : pass1_step fs s (ELabel n) = Some s1 -> pass1_step fs s1 e = Some s2 ->
+  p_items s2 = (a, it) :: p_items s1 -> env_get (p_env s1) n = Some (Z.of_N a).
+Proof.
+  intros H1 H2 HI. cbn [pass1_step] in H1. destruct (p_cur s) as [c|] eqn:Ec; [|discriminate].
+  destruct (c <? 4294967296); [|discriminate]. unfold define in H1.
+  destruct (AsmStmtModel.is_register n); [discriminate|]. destruct (env_get (p_env s) n); [discriminate|].
+  inversion H1; subst s1. cbn [p_env p_items p_cur env_get] in *.
+  change (AsmStmtModel.str_eqb n n) with (CtxModel.str_eqb n n). rewrite str_eqb_refl. f_equal. f_equal.
+  assert (NE : forall (l : list (N * item)) x, l <> x :: l).
+  { intros l x Hl. apply (f_equal (@List.length _)) in Hl. cbn in Hl. lia. }
+  unfold pass1_step in H2.
+  repeat match type of H2 with
+         | context[match ?x with _ => _ end] =>
+             first [ match x with define _ _ _ => fail 2 end | match x with place _ _ _ => fail 2 end | destruct x eqn:? ]
+         end; try discriminate H2;
+  try (apply place_items in H2; destruct H2 as (c' & C1 & C2); cbn [p_cur p_items] in C1, C2; rewrite ?Ec in C1; rewrite C2 in HI; inversion C1; inversion HI; subst; reflexivity);
+  try (apply define_items in H2; cbn [p_items] in H2; rewrite H2 in HI; exfalso; exact (NE _ _ HI)).
+  all: try (inversion H2; subst; cbn [p_items] in HI; exfalso; exact (NE _ _ HI)).
+Qed.
+
+(* ------------------------------------------------------------------ staged evaluation through a failed first stage *)
+(* C08_staged covers a first stage that returns Ok (a deferral by a declared name); a statement deferred because a
+   name is UNKNOWN keeps the tree of the failed call.  Evaluating that tree later gives the value of the original. *)
+Theorem staged_after_failure rho lk1 lk2 ir a a' e v1 ev v2 : compat rho lk1 ir -> compat rho lk2 ir ->
+  evaluate_mut (fun n => Some (lk1 n)) ir a = EvErr a' e -> evaluate lk2 ir a' = I64.Ok (AConst v1, ev) ->
+  den64 rho a = Some v2 -> v1 = v2.
+Proof.
+  intros C1 C2 E1 E2 D. pose proof (mut_err_fwd rho lk1 ir C1 a a' e E1) as F1.
+  pose proof (evaluate_fwd rho lk2 ir a' C2 _ _ E2) as F2. apply (fwd_const rho a v1 v2); [exact (fwd_trans _ _ _ _ F1 F2)|exact D].
 Qed.
